@@ -51,6 +51,10 @@ class Raised(Exception):
         self.exc = exc
 
 
+class Infeasible(Exception):
+    """the current replay does not correspond to an execution (e.g. the 'go round again' exit of a summarised loop)"""
+
+
 class _Return(Exception):
     def __init__(self, value):
         self.value = value
@@ -118,6 +122,31 @@ class SymSeq(AbstractValue):
         return self
 
 
+class SymMap(AbstractValue):
+    """{k(e): v(e) for e in S} over a symbolic sequence: a mapping with one entry per *distinct* key — its values/keys/items are
+    a different (deduplicated) sequence than S"""
+    sort = "map"
+
+    def __init__(self, name, key, value, src):
+        self.name, self.key, self.value, self.src = name, key, value, src
+
+    def v_getattr(self, attr, it):
+        if attr in ("values", "keys", "items"):
+            elem = {"values": self.value, "keys": self.key, "items": (self.key, self.value)}[attr]
+            n = Term("len_distinct", (_hashable(self.key), _hashable(self.src)), "int")
+            return lambda: SymSeq(f"{attr}({self.name})", elem, n, ("distinct", self.src))
+        raise AnalysisError(f"attribute {attr} of a symbolic mapping")
+
+    def sym_len(self):
+        return Term("len_distinct", (_hashable(self.key), _hashable(self.src)), "int")
+
+    def __repr__(self):
+        return f"SymMap({self.name})"
+
+    def __deepcopy__(self, memo):
+        return self
+
+
 class HashObj:
     """result of hash_function(data) / hmac.new(key, msg, fn)"""
 
@@ -149,10 +178,22 @@ class HashFn:
 
 
 class Frame:
-    __slots__ = ("func", "module", "env", "cls_ctx", "first")
+    __slots__ = ("func", "module", "env", "cls_ctx", "first", "parent")
 
-    def __init__(self, func, module, env, cls_ctx=None, first=None):
-        self.func, self.module, self.env, self.cls_ctx, self.first = func, module, env, cls_ctx, first
+    def __init__(self, func, module, env, cls_ctx=None, first=None, parent=None):
+        self.func, self.module, self.env, self.cls_ctx, self.first, self.parent = func, module, env, cls_ctx, first, parent
+
+
+class Closure:
+    """a nested function / lambda together with its defining frame (free variables are read from it)"""
+    __slots__ = ("node", "frame", "name")
+
+    def __init__(self, node, frame):
+        self.node, self.frame = node, frame
+        self.name = getattr(node, "name", "<lambda>")
+
+    def __repr__(self):
+        return f"<closure {self.name}>"
 
 
 class Oracle:
@@ -407,6 +448,8 @@ class Interp:
             return self.instantiate(fn, args, kwargs, node)
         if isinstance(fn, External):
             return self.call_external(fn, args, kwargs, node)
+        if isinstance(fn, Closure):
+            return self.call_closure(fn, args, kwargs, node)
         if isinstance(fn, IdentityFn):
             return args[0]
         if isinstance(fn, HashFn) or (isinstance(fn, Term) and fn.sort == "hashfn"):
@@ -460,6 +503,37 @@ class Interp:
         finally:
             self.stack.pop()
 
+    def call_closure(self, c, args, kwargs, node=None):
+        a = c.node.args
+        if a.vararg or a.kwarg or a.kwonlyargs:
+            raise AnalysisError(f"{self.where(node)}: star-parameters are outside the fragment")
+        params = [x.arg for x in a.posonlyargs + a.args]
+        if len(args) > len(params):
+            raise AnalysisError(f"{self.where(node)}: too many arguments for {c.name}")
+        env = dict(zip(params, args))
+        for k, v in kwargs.items():
+            if k not in params or k in env:
+                raise AnalysisError(f"{self.where(node)}: bad keyword {k} for {c.name}")
+            env[k] = v
+        for i, dn in enumerate(a.defaults):
+            pn = params[len(params) - len(a.defaults) + i]
+            if pn not in env:
+                env[pn] = self.eval(dn, c.frame)
+        if [pn for pn in params if pn not in env]:
+            raise AnalysisError(f"{self.where(node)}: missing arguments for {c.name}")
+        pf = c.frame
+        fr = Frame(pf.func, pf.module, env, pf.cls_ctx, pf.first, parent=pf)
+        self.stack.append(fr)
+        try:
+            if isinstance(c.node, ast.Lambda):
+                return self.eval(c.node.body, fr)
+            self.exec_block(c.node.body, fr)
+            return None
+        except _Return as r:
+            return r.value
+        finally:
+            self.stack.pop()
+
     def instantiate(self, cls: ClassInfo, args, kwargs, node=None):
         for h in self.class_hooks:
             r = h(self, cls, list(args), dict(kwargs))
@@ -505,10 +579,20 @@ class Interp:
                 raise AnalysisError(f"{self.where(node)}: {obj.cls.qualname} instance has no attribute {name}")
             return self.bind(m, obj, obj.cls)
         if isinstance(obj, ClassInfo):
+            ov = getattr(self, "class_overlay", None)
+            if ov and (obj.qualname, name) in ov:
+                return ov[(obj.qualname, name)]
+            if name == "__dict__":
+                return _ClassDict(obj)
             m = self.class_attr(obj, name, default=_MISSING)
             if m is _MISSING:
                 if name == "__name__":
                     return obj.name
+                if self.facts.get(Term("dict_has", (f"classdict:{obj.qualname}", name), "bool")) is True:
+                    # attribute created at run time by an earlier call (state): an unknown mutable object
+                    d = {}
+                    self.shared_name(d)
+                    return d
                 raise AnalysisError(f"{self.where(node)}: class {obj.qualname} has no attribute {name}")
             return self.bind(m, None, obj)
         if isinstance(obj, SuperProxy):
@@ -567,6 +651,15 @@ class Interp:
         if isinstance(obj, Instance):
             obj.attrs[name] = value
             return
+        if isinstance(obj, ClassInfo):
+            # run-time store to a class attribute: shared state; visible to the rest of this path only
+            if not hasattr(self, "class_overlay"):
+                self.class_overlay = {}
+            self.class_overlay[(obj.qualname, name)] = value
+            if isinstance(value, dict):
+                self.shared_name(value)
+            self.emit("shared_store", target=f"{obj.qualname}.{name}", key=None, node=node)
+            return
         raise AnalysisError(f"{self.where(node)}: attribute store on {obj!r}")
 
     # ------------------------------------------------------------ statements
@@ -611,6 +704,16 @@ class Interp:
             raise _Break()
         elif t is ast.Continue:
             raise _Continue()
+        elif t is ast.Assert:
+            if not self.truth(self.eval(st.test, fr), st.test):
+                self.raise_exc("AssertionError", "assertion failed", st)
+        elif t is ast.FunctionDef:
+            if st.decorator_list:
+                raise AnalysisError(f"{self.where(st)}: decorated nested function outside the fragment")
+            for nn in ast.walk(st):
+                if isinstance(nn, (ast.Nonlocal, ast.Global, ast.Yield, ast.YieldFrom)):
+                    raise AnalysisError(f"{self.where(st)}: nonlocal/global/yield in a nested function outside the fragment")
+            fr.env[st.name] = Closure(st, fr)
         elif t in (ast.Import, ast.ImportFrom):
             raise AnalysisError(f"{self.where(st)}: import inside function")
         else:
@@ -739,19 +842,23 @@ class Interp:
 
     def exec_for(self, st, fr):
         it = self.eval(st.iter, fr)
-        if st.orelse:
-            raise AnalysisError(f"{self.where(st)}: for/else outside the fragment")
         if is_sym(it):
+            if st.orelse:
+                raise AnalysisError(f"{self.where(st)}: for/else over a symbolic sequence outside the fragment")
             return self.exec_sym_for(st, it, fr)
         items = self.iter_concrete(it, st)
+        broke = False
         for x in items:
             self.assign(st.target, x, fr)
             try:
                 self.exec_block(st.body, fr)
             except _Break:
+                broke = True
                 break
             except _Continue:
                 continue
+        if st.orelse and not broke:
+            self.exec_block(st.orelse, fr)
 
     def generic_elem(self, it, node):
         if isinstance(it, SymSeq):
@@ -837,12 +944,18 @@ class Interp:
 
     # ----------------------------------------------------------- expressions
     def lookup(self, name, fr, node=None):
-        if name in fr.env:
-            v = fr.env[name]
-            if isinstance(v, Term) and v.sort == "bool":
-                return self.concretize(v)
-            return v
+        f = fr
+        while f is not None:
+            if name in f.env:
+                v = f.env[name]
+                if isinstance(v, Term) and v.sort == "bool":
+                    return self.concretize(v)
+                return v
+            f = f.parent
         return self.eval_global(fr.module, name, node)
+
+    def e_Lambda(self, e, fr):
+        return Closure(e, fr)
 
     def concretize(self, v):
         """a boolean term whose atom is already decided on this path becomes a
@@ -994,9 +1107,9 @@ class Interp:
                 return v
             t = self.truth(v, x)
             if is_and and not t:
-                return v
+                return False if _is_boolish(v) else v
             if not is_and and t:
-                return v
+                return True if _is_boolish(v) else v
         return v
 
     def e_IfExp(self, e, fr):
@@ -1079,6 +1192,15 @@ class Interp:
                         res = False
                         break
             return res if o == "==" else (not res)
+        if isinstance(a, (tuple, list)) and isinstance(b, (tuple, list)) and type(a) is type(b) and o in ("<", "<=", ">", ">=") \
+                and (_has_abstract(a) or _has_abstract(b)):
+            # lexicographic order, element by element, like CPython: the first differing pair decides
+            for x, y in zip(a, b):
+                r = self.compare(ast.Eq(), x, y, node)
+                if not self.truth(r, node):
+                    strict = {"<": ast.Lt, "<=": ast.Lt, ">": ast.Gt, ">=": ast.Gt}[o]()
+                    return self.compare(strict, x, y, node)
+            return _PYCMP[o](len(a), len(b))
         if (a is None or b is None) and o in ("==", "!=") and not is_sym(a) and not is_sym(b):
             return (a is b) if o == "==" else (a is not b)
         if hasattr(a, "v_compare"):
@@ -1120,6 +1242,13 @@ class Interp:
             if not self.truth(lo, node):
                 return False
             return self.compare(ast.Lt(), x, container.stop, node)
+        if isinstance(container, _ClassDict):
+            ov = getattr(self, "class_overlay", None)
+            if ov and (container.cls.qualname, x) in ov:
+                return True
+            if not is_sym(x) and (x in container.cls.methods or x in container.cls.attr_nodes or x in container.cls.dyn_attrs):
+                return True
+            return Term("dict_has", (f"classdict:{container.cls.qualname}", _hashable(x)), "bool")
         if isinstance(container, dict) and not _has_abstract(x):
             return x in container
         if isinstance(container, dict):
@@ -1193,6 +1322,32 @@ class Interp:
     # ---------------------------------------------------------- comprehension
     def e_ListComp(self, e, fr):
         return self.comprehension(e, fr)
+
+    def e_DictComp(self, e, fr):
+        if len(e.generators) != 1:
+            raise AnalysisError(f"{self.where(e)}: nested comprehension outside the fragment")
+        g = e.generators[0]
+        it = self.eval(g.iter, fr)
+        saved = dict(fr.env)
+        try:
+            if is_sym(it):
+                if g.ifs:
+                    raise AnalysisError(f"{self.where(e)}: filtered comprehension over symbolic sequence")
+                self.assign(g.target, self.generic_elem(it, e), fr)
+                k, v = self.eval(e.key, fr), self.eval(e.value, fr)
+                return SymMap(f"dict@{self.where(e)}", k, v, it)
+            out = {}
+            for x in self.iter_concrete(it, e):
+                self.assign(g.target, x, fr)
+                if all(self.truth(self.eval(c, fr), c) for c in g.ifs):
+                    out[self.eval(e.key, fr)] = self.eval(e.value, fr)
+            return out
+        finally:
+            for nm in _assigned_names_target(g.target):
+                if nm in saved:
+                    fr.env[nm] = saved[nm]
+                else:
+                    fr.env.pop(nm, None)
 
     def e_GeneratorExp(self, e, fr):
         r = self.comprehension(e, fr)
@@ -1336,6 +1491,13 @@ class _GlobalsProxy:
         self.module = module
 
 
+class _ClassDict:
+    """cls.__dict__ of a repository class (own attributes; run-time additions are state)"""
+
+    def __init__(self, cls):
+        self.cls = cls
+
+
 class _BuiltinMethod:
     __slots__ = ("interp", "name", "obj")
 
@@ -1365,6 +1527,11 @@ class Fold(AbstractValue):
 
     def __repr__(self):
         return f"fold({self.name}: {show(self.acc)} -> {show(self.body)}; init={show(self.init)}; over {self.seq!r})"
+
+
+def _is_boolish(v):
+    """a symbolic value of boolean sort whose truth has just been decided on this path equals that truth value"""
+    return (isinstance(v, AbstractValue) and getattr(v, "sort", None) == "bool") or isinstance(v, bool)
 
 
 def _hashable(v):
@@ -1434,22 +1601,32 @@ def havoc_while(it, st, fr):
             carried[nm] = (fr.env[nm], h)
             fr.env[nm] = h
     it.emit("while_enter", carried={k: v for k, v in carried.items()}, node=st)
+    assigned = sorted(_assigned_names(st.body))
     it.sym_loop_depth += 1
     try:
         it.exec_block(st.body, fr)
     except (_Break, _Continue):
         raise AnalysisError(f"{it.where(st)}: break/continue in summarised while loop")
+    except _Return:
+        # the loop is left from inside the generic iteration
+        it.emit("while_exit", carried={k: v for k, v in carried.items()},
+                final={k: fr.env.get(k) for k in assigned}, exit_cond="return", node=st)
+        raise
     finally:
         it.sym_loop_depth -= 1
     c1 = it.eval(st.test, fr)
     if not is_sym(c1):
         if it.truth(c1, st.test):
-            raise AnalysisError(f"{it.where(st)}: loop test still true after the body for every carried state")
+            # the test is constantly true: the loop is left only from inside the body (return / raise); a replay that completes
+            # the generic iteration without leaving stands for "go round again" and is covered by the iteration itself
+            it.emit("while_exit", carried={k: v for k, v in carried.items()},
+                    final={k: fr.env.get(k) for k in carried}, exit_cond="exit inside body", node=st)
+            raise Infeasible()
     else:
         cond = it.as_cond(c1, st.test)
         it.assume(cond, False, f"loop exit {it.where(st)}")
     it.emit("while_exit", carried={k: v for k, v in carried.items()},
-            final={k: fr.env.get(k) for k in carried}, exit_cond=c1, node=st)
+            final={k: fr.env.get(k) for k in assigned}, exit_cond=c1, node=st)
     return None
 
 
@@ -1476,11 +1653,14 @@ def enumerate_paths(world, run, max_paths=4000, **interp_kw):
         except _Return as r:
             p.outcome = "return"
             p.value = r.value
+        except Infeasible:
+            p.outcome = "infeasible"
         p.facts = list(it.fact_log)
         p.events = it.events
         p.decisions = list(orc.trace)
         p.interp = it
-        paths.append(p)
+        if p.outcome != "infeasible":
+            paths.append(p)
         if len(paths) > max_paths:
             raise AnalysisError(f"more than {max_paths} paths")
         for i in range(len(prefix), len(orc.trace)):
